@@ -309,31 +309,50 @@ def cq_pair(a, b):
     return "(%s, %s)" % (a, b)
 
 
-def run_cases(ctx, name, header, case_terms, case_type="(nat * bool)", shards=16, mism="mismatches"):
-    """Write sharded cases files; each evaluates `mism cases` by vm_compute and prints it. Returns the list of bad ids."""
+def run_cases(ctx, name, header, case_terms, case_type="(nat * bool)", shards=16, mism="mismatches", per_file=300, parallel=8):
+    """Write bounded cases files (at most per_file cases each: a vm_compute over thousands of cases needs gigabytes); each evaluates
+    `mism cases` by vm_compute and prints it; at most `parallel` coqc run at once. Returns the list of bad ids."""
     if not case_terms:
         return []
-    shards = max(1, min(shards, (len(case_terms) + 19) // 20))
-    procs = []
-    for k in range(shards):
-        part = case_terms[k::shards]
+    nfiles = max(1, min(shards, (len(case_terms) + 19) // 20), (len(case_terms) + per_file - 1) // per_file)
+    pending = []
+    for k in range(nfiles):
+        part = case_terms[k::nfiles]
         src = header + "\nDefinition cases : list %s := [\n" % case_type + ";\n".join(part) + "\n].\n"
         src += "Definition bad := Eval vm_compute in %s cases.\nPrint bad.\n" % mism
         path = os.path.join(ctx.run, "%s_%d.v" % (name, k))
         open(path, "w").write(src)
-        procs.append((path, subprocess.Popen(["timeout", "1200", "coqc", "-Q", COQ, "PV", "-w", "none", path], cwd=ctx.run,
-                                             stdout=subprocess.PIPE, stderr=subprocess.STDOUT, text=True)))
+        pending.append(path)
     bad = []
-    for path, p in procs:
+    running = []
+
+    def reap(path, p, retry):
         out, _ = p.communicate()
         if p.returncode != 0:
+            if retry and not out.strip():
+                # killed without a message (memory pressure): once more, alone
+                p2 = subprocess.run(["timeout", "1200", "coqc", "-Q", COQ, "PV", "-w", "none", path], cwd=ctx.run, stdout=subprocess.PIPE,
+                                    stderr=subprocess.STDOUT, text=True)
+                out = p2.stdout
+                if p2.returncode == 0:
+                    return out
             ctx.log("coqc failed on %s:\n%s" % (path, out[-3000:]))
             raise RuntimeError("generated cases file does not check: " + path)
+        return out
+
+    def parse(out):
         m = re.search(r"bad\s*=\s*(.*?)\s*:\s*list", out, re.S)
         if not m:
             raise RuntimeError("cannot parse coqc output: " + out[-500:])
-        body = m.group(1).strip()
-        bad += [int(x) for x in re.findall(r"\d+", body)]
+        return [int(x) for x in re.findall(r"\d+", m.group(1).strip())]
+
+    while pending or running:
+        while pending and len(running) < parallel:
+            path = pending.pop(0)
+            running.append((path, subprocess.Popen(["timeout", "1200", "coqc", "-Q", COQ, "PV", "-w", "none", path], cwd=ctx.run,
+                                                   stdout=subprocess.PIPE, stderr=subprocess.STDOUT, text=True)))
+        path, p = running.pop(0)
+        bad += parse(reap(path, p, True))
     return sorted(bad)
 
 
